@@ -35,8 +35,9 @@ class Journal:
 
     def __enter__(self):
         import random
-        self.saved = gvrng._gv_rng
-        gvrng._gv_rng = self.glob
+        from vt import access
+        self.saved = access.get_global()
+        access.set_global(self.glob)
         self._np0 = _np_legacy_state()
         self._py0 = random.getstate()
         self.touched = []
@@ -50,9 +51,10 @@ class Journal:
             self.touched.append('numpy.random (legacy global state)')
         if random.getstate() != self._py0:
             self.touched.append('random (python global state)')
-        if gvrng._gv_rng is not self.glob:
-            self.touched.append('gym_gridverse.rng._gv_rng was replaced')
-        gvrng._gv_rng = self.saved
+        from vt import access
+        if access.get_global() is not self.glob:
+            self.touched.append('the library-level generator of gym_gridverse.rng was replaced')
+        access.set_global(self.saved)
         return False
 
     def global_draws(self):
